@@ -38,9 +38,9 @@ Theorem oop_close_reopen : forall chunk, 1 <= chunk -> forall st, oop_ok st -> o
 Proof. exact oop_reopen. Qed.
 
 (* a read through the same handle finishes the pending write first and returns the flat array *)
-Theorem oop_read_returns_field : forall chunk, 1 <= chunk -> forall st n, oop_ok st ->
-  snd (oop_get chunk st n) = firstn n (oop_abs st) /\
-  oop_abs (fst (oop_get chunk st n)) = oop_abs st /\ oop_ok (fst (oop_get chunk st n)).
+Theorem oop_read_returns_field : forall chunk, 1 <= chunk -> forall st p n, oop_ok st ->
+  snd (oop_get chunk st p n) = firstn n (skipn p (oop_abs st)) /\
+  oop_abs (fst (oop_get chunk st p n)) = oop_abs st /\ oop_ok (fst (oop_get chunk st p n)).
 Proof. exact oop_get_correct. Qed.
 
 (* ---- SIE: the cursor machine of sie.c (_GD_SampIndSeek with gap padding, _GD_SampIndWrite with
